@@ -6,7 +6,10 @@ from typing import Protocol
 
 from flowmark.linewrapping.protocols import LineWrapper
 from flowmark.linewrapping.sentence_split_regex import split_sentences_regex
-from flowmark.linewrapping.tag_handling import add_tag_newline_handling
+from flowmark.linewrapping.tag_handling import (
+    add_tag_newline_handling,
+    find_template_tags_outside_code,
+)
 from flowmark.linewrapping.text_filling import DEFAULT_WRAP_WIDTH
 from flowmark.linewrapping.text_wrapping import (
     DEFAULT_LEN_FUNCTION,
@@ -35,9 +38,24 @@ _line_break_re = re.compile(r"\\\n|  \n")
 
 def split_markdown_hard_breaks(text: str) -> list[str]:
     """
-    Split text by explicit Markdown line breaks.
+    Split text by explicit Markdown line breaks. What looks like one inside a template tag
+    or HTML comment written over several lines (`{% tag a=1  ` + newline + `b=2 %}`) is part
+    of the tag.
     """
-    return _line_break_re.split(text)
+    if "\n" not in text:
+        return [text]
+    tag_spans = [span for span in find_template_tags_outside_code(text) if "\n" in text[span[0] : span[1]]]
+    if not tag_spans:
+        return _line_break_re.split(text)
+    segments: list[str] = []
+    pos = 0
+    for match in _line_break_re.finditer(text):
+        if any(start < match.start() < end for start, end in tag_spans):
+            continue
+        segments.append(text[pos : match.start()])
+        pos = match.end()
+    segments.append(text[pos:])
+    return segments
 
 
 _leading_word_re = re.compile(r"(\s*)(\S+)")
